@@ -298,6 +298,15 @@ fn geometric_law(p: f64) -> RefLaw {
     if p == 1.0 {
         return Window::from_weights(0, vec![1.0]).law(0.0, 0.0);
     }
+    if 1.0 - p == 1.0 {
+        // documented edge case: "If p == 0.0 or 1.0 - p rounds to 1.0 then sampling returns u64::MAX"
+        let m = u64::MAX as f64;
+        let mut r = RefLaw::cont(a1(move |x| if x >= m { 1.0 } else { 0.0 }), a1(move |x| if x >= m { 0.0 } else { 1.0 }), m, m);
+        r.discrete = true;
+        r.atoms = vec![m];
+        r.note = "documented constant u64::MAX".into();
+        return r;
+    }
     let l1 = (-p).ln_1p(); // ln(1-p)
     let cdf = a1(move |x: f64| {
         let k = x.floor();
@@ -763,7 +772,13 @@ pub fn reflaw(cell: &Cell) -> Option<RefLaw> {
         Fam::StandardGeometric => geometric_law(0.5),
         Fam::Hypergeometric => hypergeometric_law(cell.ip[0], cell.ip[1], cell.ip[2]),
         Fam::Zipf => zipf_law(g(0), g(1)),
-        Fam::Zeta => zeta_law(g(0)),
+        Fam::Zeta => {
+            let mut r = zeta_law(g(0));
+            // documented: when the proposal u^(-1/(s-1)) overflows the float type the sampler returns +inf
+            // without an acceptance test; that event has probability MAX^-(s-1)
+            r.rho_abs_extra += cell.ft.max().powf(-(g(0) - 1.0));
+            r
+        }
         _ => return None,
     };
     law.kappa = kappa(cell);
